@@ -123,7 +123,10 @@ def _audit(event, args):
         if isinstance(flags, int) and (flags & (os.O_WRONLY | os.O_RDWR
                                                 | os.O_CREAT | os.O_TRUNC
                                                 | os.O_APPEND)):
-            rec = ("open-w", _s(path), flags)
+            sp = _s(path)
+            existed = isinstance(sp, str) and os.path.lexists(sp)
+            rec = ("open-w" if existed or not flags & os.O_CREAT
+                   else "open-create", sp, flags)
         else:
             return
     elif event in _MUTATORS:
